@@ -534,6 +534,14 @@ def mk_ite(c: Term, a: Term, b: Term) -> Term:
         return b
     if a == b:
         return a
+    if c[0] in ("lt0", "le0") and not (const_value(a) is not None and const_value(b) is not None) and a[0] not in ("closure", "tuple", "list", "dict", "obj") \
+            and b[0] not in ("closure", "tuple", "list", "dict", "obj"):
+        # a if a > b else b  is  max(a, b)   (and the three other spellings; ties give equal values)
+        for x, y in ((a, b), (b, a)):
+            for mk in (lt, le):
+                if c == mk(x, y):
+                    # c says x < y (x <= y)
+                    return mk_max([a, b]) if (a, b) == (y, x) else mk_min([a, b])
     if c[0] == "not":
         return mk_ite(c[1], b, a)
     nc = mk_not(c)
